@@ -58,6 +58,43 @@ func RuleMP1(c *Ctx) {
 				id, ok := ast.Unparen(e).(*ast.Ident)
 				return ok && info.ObjectOf(id) == vobj
 			}
+			// handing the value out counts as a use: a success return that carries it is
+			// reached only where the lookup found it
+			inspectNoLit(fd.Body, func(y ast.Node) bool {
+				ret, ok := y.(*ast.ReturnStmt)
+				if !ok || len(ret.Results) < 2 {
+					return true
+				}
+				carries := false
+				for _, r := range ret.Results {
+					if match(r) {
+						carries = true
+					}
+				}
+				last := ret.Results[len(ret.Results)-1]
+				if tv, has := info.Types[last]; !carries || !has || !tv.IsNil() {
+					return true
+				}
+				n++
+				key := fmt.Sprintf("%s:macro-value-returned#%d", c.P.DeclName(fd), n)
+				gen := func(fa cfgx.Fact) bool {
+					if id, ok := ast.Unparen(fa.Expr).(*ast.Ident); ok && okObj != nil && info.ObjectOf(id) == okObj && fa.Truth {
+						return true
+					}
+					for _, r := range ret.Results {
+						if match(r) && cfgx.IsNilCheck(info, fa, r) {
+							return true
+						}
+					}
+					return false
+				}
+				if cf.MustAt(ret, gen, nil, nil) {
+					sc.Holds(key, c.P.Pos(ret.Pos()), "returned with success only after the lookup succeeded")
+				} else {
+					sc.Violation(key, c.P.Pos(ret.Pos()), "a macro fetched from the table is returned as found without testing that it exists")
+				}
+				return true
+			})
 			for _, us := range usesOf(fd.Body, match) {
 				n++
 				key := fmt.Sprintf("%s:macro-value#%d", c.P.DeclName(fd), n)
@@ -865,6 +902,7 @@ func (c *Ctx) lookAheadShape(sc *report.RuleScope, pk *pkgT, look *types.Func) {
 			continue
 		}
 		lf, cr := token.NoPos, token.NoPos
+		sp, tab := token.NoPos, token.NoPos
 		ast.Inspect(gd.Body, func(n ast.Node) bool {
 			lit, ok := n.(*ast.BasicLit)
 			if !ok || (lit.Kind != token.CHAR && lit.Kind != token.STRING) {
@@ -880,8 +918,28 @@ func (c *Ctx) lookAheadShape(sc *report.RuleScope, pk *pkgT, look *types.Func) {
 			if strings.Contains(v, "\r") && cr == token.NoPos {
 				cr = lit.Pos()
 			}
+			// blanks as separators: a literal that is nothing but white space
+			if strings.Trim(v, " \t") == "" && v != "" {
+				if strings.Contains(v, " ") && sp == token.NoPos {
+					sp = lit.Pos()
+				}
+				if strings.Contains(v, "\t") && tab == token.NoPos {
+					tab = lit.Pos()
+				}
+			}
 			return true
 		})
+		wkey := "blanks:" + g.Name()
+		switch {
+		case sp == token.NoPos && tab == token.NoPos:
+			sc.Holds(wkey, c.P.Pos(gd.Pos()), "mentions no blank as a separator")
+		case sp != token.NoPos && tab != token.NoPos:
+			sc.Holds(wkey, c.P.Pos(gd.Pos()), "mentions space and tab")
+		case sp != token.NoPos:
+			sc.Violation(wkey, c.P.Pos(sp), "the look-ahead separates words at a space and never mentions the tab, which the scanner treats alike: a keyword followed by a TAB no longer ends a description")
+		default:
+			sc.Violation(wkey, c.P.Pos(tab), "the look-ahead separates words at a tab and never mentions the space")
+		}
 		key := "line-breaks:" + g.Name()
 		switch {
 		case lf == token.NoPos && cr == token.NoPos:
